@@ -60,6 +60,10 @@ class LoopMixin:
     def havoc_loop_state(self, node, frame, spec, header):
         run = self.run
         locs, paths = self.write_set(node.body + node.orelse, frame)
+        # local containers mutated in place (x.append(...), x[k] = ...) are part of the loop state too
+        for p_ in list(paths):
+            if p_.isidentifier():
+                locs.add(p_)
         if isinstance(node, ast.For):
             tl, _tp = self.write_set([ast.Assign(targets=[node.target], value=ast.Constant(value=None))], frame)
             locs -= tl
@@ -264,6 +268,23 @@ class LoopMixin:
             for v in node.values:
                 self.assume_clause(v, sframe, extra)
             return
+        if isinstance(node, ast.BoolOp) and isinstance(node.op, ast.Or):
+            # a disjunction: assume it as a formula, but first try to learn which disjunct holds on this path
+            pass
+        if isinstance(node, ast.Call) and isinstance(node.func, ast.Name) and node.func.id in self.spec_funcs \
+                and not node.keywords:
+            # expand single-expression specification functions so that identity conjuncts inside them can bind
+            fdef = self.spec_funcs[node.func.id][0]
+            body = [st for st in fdef.body if not (isinstance(st, ast.Expr) and isinstance(st.value, ast.Constant))]
+            params = [a.arg for a in fdef.args.args]
+            if len(body) == 1 and isinstance(body[0], ast.Return) and len(params) == len(node.args):
+                import copy as _copy
+                mapping = dict(zip(params, node.args))
+
+                class Sub(ast.NodeTransformer):
+                    def visit_Name(self, n):
+                        return _copy.deepcopy(mapping[n.id]) if n.id in mapping else n
+                return self.assume_clause(Sub().visit(_copy.deepcopy(body[0].value)), sframe, extra)
         f = E.Frame(sframe.relpath, sframe.ci, dict(sframe.locals), None, "spec")
         f.locals.update(extra)
         if isinstance(node, ast.Call) and isinstance(node.func, ast.Name) and node.func.id == "implies":
